@@ -383,9 +383,8 @@ bool Xml::Private::parseElement(Element& element)
           return false;
         continue;
       }
-      else
-        this->pos = commentEnd.pos ? commentEnd : pos; // text starts behind the last comment
     }
+    this->pos = commentEnd.pos ? commentEnd : pos; // not a tag (or not a token at all): text, it starts behind the last comment
     String string;
     if(!parseText(string))
       return false;
